@@ -55,6 +55,12 @@ try:
     SHAPES = json.load(open(os.path.join(os.path.dirname(os.path.dirname(os.path.abspath(__file__))), "units", "shapes.json")))
 except Exception:
     SHAPES = {}
+# functions a Kani harness targets (units/registry.json): an assumed contract on one of them is cross-checked on the current text
+try:
+    _reg = json.load(open(os.path.join(os.path.dirname(os.path.dirname(os.path.abspath(__file__))), "units", "registry.json")))
+    KANI_TARGETS = {h.get("target") for pv in _reg["properties"].values() for h in (pv.get("kani") or []) if isinstance(h, dict)}
+except Exception:
+    KANI_TARGETS = set()
 
 TRACING_MACROS = {
     "log_channel_event",   # macro_rules! in tcp/client.rs: expands to tracing::info! / tracing::debug! only
@@ -649,6 +655,8 @@ class Unit:
                         prev_ = ch
                     if cur_.strip():
                         parts_.append(cur_.strip())
+                    if len(parts_) == 1 and m["path"] == "writeln":
+                        parts_.append('""')          # `writeln!(f)`: just the newline
                     if len(parts_) < 2 or not parts_[1].startswith('"'):
                         raise Unsupported(f"{where}: cannot split `{m['path']}!({ttxt[:60]}..)`")
                     evals = ""
@@ -712,7 +720,15 @@ class Unit:
                                 won = " ".join(f"clk__.won_against(&{t});" for t in timers.values()) if timers else "clk__.elapse();"
                                 out += f"{cond}{{ {others} let {pat} = {fut}.await; {won} {body} }}"
                             else:
-                                out += f"{cond}{{ {others} let {pat} = {fut}.await; {body} }}"
+                                # `//@arm K|` / `//@armend K|` (K = 10 * select ordinal + arm ordinal): hints right after the arm's
+                                # binding and after its body (the latter only for arms of unit type)
+                                ah = "".join(parts.get(("arm", selk * 10 + ai), []))
+                                aeh = "".join(parts.get(("armend", selk * 10 + ai), []))
+                                ah = split_hint(ah) if ah.strip() else ""
+                                if aeh.strip():
+                                    out += f"{cond}{{ {others} let {pat} = {fut}.await; {ah} {{ {body} }}; {split_hint(aeh)} }}"
+                                else:
+                                    out += f"{cond}{{ {others} let {pat} = {fut}.await; {ah} {body} }}"
                             if ai < len(arms) - 1:
                                 out += " else "
                         out += " }"
@@ -1025,7 +1041,7 @@ class Unit:
                            "afterloop": len(it["loops"]), "beforeloop": len(it["loops"]),
                            "timer": nsel + sum(1 for aw in it.get("awaits", []) if re.match(rb"\s*tokio::time::timeout\s*\(", src[aw["base"][0]:aw["base"][1]])),
                            "async": len(it.get("async_blocks", [])), "asyncend": len(it.get("async_blocks", [])),
-                           "exit": len(exits), "tryexit": len(it["tries"]),
+                           "exit": len(exits), "tryexit": len(it["tries"]), "arm": nsel * 10, "armend": nsel * 10,
                            "closure": len(it.get("closures", []))}[kind]
                     if k >= lim:
                         raise AnchorLost(f"{where}: template refers to {kind} {k} but the function has only {lim}")
@@ -1034,7 +1050,7 @@ class Unit:
                     # `?` and fail for a reason that has nothing to do with the property -> undecided instead
                     if k >= 0:
                         grp = {"loop": "loops", "loopstart": "loops", "loopend": "loops", "afterloop": "loops", "beforeloop": "loops",
-                               "timer": "timers", "async": "asyncs", "asyncend": "asyncs", "exit": "exits", "tryexit": "tries", "closure": "closures"}[kind]
+                               "timer": "timers", "arm": "timers", "armend": "timers", "async": "asyncs", "asyncend": "asyncs", "exit": "exits", "tryexit": "tries", "closure": "closures"}[kind]
                         want = SHAPES.get(f"{relfile}::{path}", {}).get(grp)
                         if want is not None and want != lim:
                             raise AnchorLost(f"{where}: the function now has {lim} {grp} where the hints were written for {want}: ordinal hints cannot be placed reliably")
@@ -1173,12 +1189,37 @@ class Unit:
                 self.functions.append({"file": relfile, "path": hpath, "tags": tags, "ext_body": False,
                                        "sha256": hashlib.sha256(src[it["async_blocks"][k]["span"][0]:it["async_blocks"][k]["span"][1]]).hexdigest(),
                                        "src_line": line_of(src, it["async_blocks"][k]["span"][0]), "emitted_as": hname, "decl": False})
+        # library-call baseline: the names called in the body (source text). A name that was not called on the pinned tree
+        # (units/shapes.json, key "calls") and that the unit does not define is a library function whose specification strength is
+        # unknown to the proofs written for this function: a failing obligation there is undecided, not a violation (verdict.py)
+        body_code_ = re.sub(r'//[^\n]*|/\*.*?\*/|"(?:\\.|[^"\\])*"', " ", src[it["body"][0]:it["body"][1]].decode(), flags=re.S) if it["body"] else ""
+        calls_now = sorted(set(re.findall(r"(?<![\w!])([A-Za-z_]\w*)\s*(?:::\s*<[^>()]*>\s*)?\(", body_code_))
+                           - {"if", "while", "match", "for", "return", "loop", "Some", "Ok", "Err", "None", "Self", "self"}) if it["body"] else []
+        key_ = f"{relfile}::{path}"
+        self.calls_seen = getattr(self, "calls_seen", {})
+        self.calls_seen[key_] = calls_now
+        base_calls = SHAPES.get(key_, {}).get("calls")
+        new_calls = sorted(set(calls_now) - set(base_calls)) if base_calls is not None else []
+        sha_ = hashlib.sha256(src[s:e]).hexdigest()
+        if ext_body and it["body"] and not relfile.startswith("@"):
+            # an ASSUMED contract was justified for the body the function had on the pinned tree (review, Kani). If the body has changed
+            # since, and no Kani harness targets the function, the assumption is no longer backed by anything: the properties that tag
+            # it are undecided (never "held" on the strength of a stale assumption)
+            self.assumed_seen = getattr(self, "assumed_seen", {})
+            self.assumed_seen[key_] = sha_
+            base_sha = SHAPES.get(key_, {}).get("assumed_sha")
+            if base_sha is not None and base_sha != sha_ and path not in KANI_TARGETS and "ext_body" in opts and (relfile, path) not in self.demote:
+                self.lost = getattr(self, "lost", [])
+                if not any(l["file"] == relfile and l["path"] == path for l in self.lost):
+                    self.lost.append({"file": relfile, "path": path, "tags": tags,
+                                      "why": f"{relfile}::{path}: its contract is ASSUMED (not verified) and its text has changed since the assumption was made on the pinned tree"})
         self.functions.append({
             "file": relfile, "path": path, "tags": tags, "ext_body": ext_body,
-            "sha256": hashlib.sha256(src[s:e]).hexdigest(),
+            "sha256": sha_,
             "src_line": line_of(src, sig_s),
             "emitted_as": opts.get("name"),
             "decl": it["body"] is None and not ext_body,
+            "new_calls": new_calls,
         })
 
     # ------------------------------------------------------------------
@@ -1236,6 +1277,30 @@ class Unit:
             elif d.startswith("bounded "):
                 self.bounded.append(d[8:].strip())
                 i += 1
+            elif d.startswith("reviewed "):
+                # `//@reviewed <file> | <fn path> | tags=Cxx,..`: a function the claims of these properties rest on but that no contract
+                # reaches (text glue, parsing). It is NOT decided; the only thing checked is that its text is still the one that was
+                # read when the claim was written (units/shapes.json). If it has changed, those properties are undecided.
+                fields = [f.strip() for f in d[9:].split("|")]
+                rfile, rpath = fields[0], fields[1]
+                rtags = [t for t in (fields[2][5:] if len(fields) > 2 and fields[2].startswith("tags=") else "").split(",") if t]
+                key_ = f"{rfile}::{rpath}"
+                try:
+                    rsrc, rit = find_item(rfile, "fn", rpath)
+                    rsha = hashlib.sha256(rsrc[rit["span"][0]:rit["span"][1]]).hexdigest()
+                    self.sources[rfile] = hashlib.sha256(rsrc).hexdigest()
+                except AnchorLost as ex_:
+                    rsha = None
+                self.reviewed_seen = getattr(self, "reviewed_seen", {})
+                if rsha:
+                    self.reviewed_seen[key_] = rsha
+                base = SHAPES.get(key_, {}).get("reviewed_sha")
+                self.notdecided.append(f"{rfile} :: {rpath} (not under contract; only guarded against change)")
+                if rsha is None or (base is not None and base != rsha):
+                    self.lost = getattr(self, "lost", [])
+                    self.lost.append({"file": rfile, "path": rpath, "tags": rtags,
+                                      "why": f"{key_}: not under contract (only reviewed) and its text " + ("is gone" if rsha is None else "has changed since it was reviewed on the pinned tree")})
+                i += 1
             elif d.startswith("notdecided "):
                 self.notdecided.append(d[11:].strip())
                 i += 1
@@ -1266,7 +1331,7 @@ class Unit:
                 parts = {}
                 while i < n:
                     st2 = lines[i].strip()
-                    m = re.match(r"//@(\||suffix\||loop\s+\d+\||entry\||exit\s+(?:\d+|\*)\||tryexit\s+\d+\||loopstart\s+\d+\||loopend\s+\d+\||afterloop\s+\d+\||beforeloop\s+\d+\||timer\s+\d+\||async\s+\d+\||asyncend\s+\d+\||closure\s+\d+\|)(.*)$", st2)
+                    m = re.match(r"//@(\||suffix\||loop\s+\d+\||entry\||exit\s+(?:\d+|\*)\||tryexit\s+\d+\||loopstart\s+\d+\||loopend\s+\d+\||afterloop\s+\d+\||beforeloop\s+\d+\||timer\s+\d+\||arm\s+\d+\||armend\s+\d+\||async\s+\d+\||asyncend\s+\d+\||closure\s+\d+\|)(.*)$", st2)
                     if not m:
                         break
                     kind = m.group(1)[:-1].strip()
@@ -1285,6 +1350,11 @@ class Unit:
                 if isfn:
                     nseg_ = len(self.segs)
                     nvac_, nrw_, ntr_ = len(self.vac_ids), len(self.rewrites), len(self.trusted)
+                    if str(self.demote.get((relfile, path), "")).startswith("DROP:"):
+                        self.lost = getattr(self, "lost", [])
+                        self.lost.append({"file": relfile, "path": path, "tags": [t for t in opts.get("tags", "").split(",") if t],
+                                          "why": f"{relfile}::{path}: signature not accepted by the verifier after the change ({self.demote[(relfile, path)][5:]}); left out"})
+                        continue
                     if (relfile, path) in self.demote and "ext_body" not in opts:
                         # demotion: the body of this function no longer compiles under the verifier (a construct outside its subset,
                         # or a type error caused by a rewrite that no longer fits). It is emitted with its contract ASSUMED so that the
@@ -1353,6 +1423,8 @@ class Unit:
                     if not (pth == fn or pth.endswith("::" + fn)):
                         continue
                     if any(f["file"] == relfile and f["path"] == pth for f in self.functions):
+                        continue
+                    if str(self.demote.get((relfile, pth), "")).startswith("DROP:"):
                         continue
                     cont = next((im["span"] for im in impls if im["span"][0] <= x["span"][0] and x["span"][1] <= im["span"][1]), None)
                     if ty:
@@ -1453,12 +1525,120 @@ def origin_of(meta, line):
     return o
 
 
+def _split_top(text):
+    """split at top-level commas (parentheses, brackets, braces and angle brackets of types are balanced)"""
+    out, depth, cur = [], 0, ""
+    for i, ch in enumerate(text):
+        if ch in "([{":
+            depth += 1
+        elif ch in ")]}":
+            depth -= 1
+        elif ch == "<" and re.search(r"[\w>]\s*$", cur) and not re.search(r"\s$", cur):
+            depth += 1
+        elif ch == ">" and depth > 0 and not cur.endswith("-") and not cur.endswith("="):
+            depth -= 1
+        if ch == "," and depth == 0:
+            out.append(cur.strip()); cur = ""
+        else:
+            cur += ch
+    if cur.strip():
+        out.append(cur.strip())
+    return out
+
+
+def inline_pulled(u, pulled):
+    """R31: a helper that a change introduced and R25 pulled in without a contract is INLINED at its call sites when it is simple
+    enough for that to be a purely textual, meaning-preserving step: a non-async, non-generic function whose body has no `return`, `?`,
+    loop or await, called with a plain receiver (`self`, `self.a.b`, `x`).  The arguments are bound first (typed `let`), `self` in the
+    body is replaced by the receiver.  Then the callers are verified against what the helper really does - an "extract function"
+    refactoring verifies as before, a breaking change hidden behind a helper fails its caller's contract.  Helpers that do not qualify
+    stay contract-less (their callers' failures are `needs contract`, undecided)."""
+    for (ty, fn) in pulled:
+        frec = next((f for f in u.functions if "segs" in f and f["path"].split("#")[0].split("::")[-1] == fn and f.get("ext_body") is False), None)
+        if frec is None:
+            continue
+        a, b = frec["segs"]
+        sig = next((t for t, o in u.segs[a:b] if isinstance(o, dict) and o.get("kind") == "sig"), None)
+        body = next((t for t, o in u.segs[a:b] if isinstance(o, dict) and o.get("kind") == "body"), None)
+        if sig is None or body is None:
+            continue
+        code = re.sub(r'//[^\n]*|/\*.*?\*/|"(?:\\.|[^"\\])*"', " ", body, flags=re.S)
+        class _MS:
+            def __init__(s_, g): s_.g = g
+            def group(s_, i): return s_.g
+        msig = None
+        m0 = re.search(r"\bfn\s+" + re.escape(fn) + r"\s*\(", sig)
+        if m0:
+            d_, j_ = 1, m0.end()
+            while j_ < len(sig) and d_ > 0:
+                d_ += sig[j_] in "([{"; d_ -= sig[j_] in ")]}"; j_ += 1
+            if d_ == 0:
+                msig = _MS(sig[m0.end():j_ - 1])
+        if (not msig or "async fn" in sig or re.search(r"\bfn\s+" + re.escape(fn) + r"\s*<", sig) or " where " in sig
+                or re.search(r"\breturn\b|\?\s*[;)\n.,}]|\.await\b|\bloop\b|\bwhile\b|\bfor\b|\bassert\s*\(false\)", code)):
+            continue
+        params = _split_top(msig.group(1))
+        has_self = bool(params) and re.fullmatch(r"&?\s*(?:'\w+\s+)?(?:mut\s+)?self", params[0]) is not None
+        if has_self:
+            params = params[1:]
+        names, types = [], []
+        ok = True
+        for p_ in params:
+            mp = re.fullmatch(r"((?:mut\s+)?\w+)\s*:\s*(.+)", p_, re.S)
+            if not mp or "impl " in mp.group(2):
+                ok = False
+                break
+            names.append(mp.group(1)); types.append(mp.group(2).strip())
+        if not ok:
+            continue
+        n_inl = 0
+        for f2 in u.functions:
+            if "segs" not in f2 or f2 is frec:
+                continue
+            for si in range(f2["segs"][0], f2["segs"][1]):
+                t, o = u.segs[si]
+                if not (isinstance(o, dict) and o.get("kind") == "body"):
+                    continue
+                out, pos = "", 0
+                pat = (r"((?:self|[a-z_]\w*)(?:\.\w+)*)\s*\.\s*" if has_self else r"(?<![\w.])(?:Self\s*::\s*|self\s*::\s*)?()") + re.escape(fn) + r"\s*\("
+                for mc in re.finditer(pat, t):
+                    if mc.start() < pos:
+                        continue
+                    if not has_self and re.search(r"\bfn\s+$", t[:mc.start()]):
+                        continue
+                    # balanced argument list
+                    d, j = 1, mc.end()
+                    while j < len(t) and d > 0:
+                        d += t[j] in "([{"; d -= t[j] in ")]}"; j += 1
+                    if d != 0:
+                        continue
+                    args = _split_top(t[mc.end():j - 1])
+                    if len(args) != len(names):
+                        continue
+                    recv = mc.group(1)
+                    btxt = re.sub(r"\bself\b", recv, body.strip()) if has_self and recv != "self" else body.strip()
+                    binds = ""
+                    if names:
+                        binds = ("let (" + ", ".join(names) + "): (" + ", ".join(types) + ") = (" + ", ".join(args) + "); ") if len(names) > 1 \
+                            else f"let {names[0]}: {types[0]} = {args[0]}; "
+                    out += t[pos:mc.start()] + "{ " + binds + btxt + " }"
+                    pos = j
+                    n_inl += 1
+                if pos:
+                    u.segs[si] = (out + t[pos:], o)
+        if n_inl:
+            u.rewrites.append({"rule": "R31", "file": frec["file"], "line": frec.get("src_line", 0),
+                               "note": f"{frec['path']}: helper without a contract (pulled in by R25) inlined at {n_inl} call site(s)"})
+            frec["inlined"] = n_inl
+
+
 def build(unit, outdir, vacuity=False, pulls=None, demote=None):
     tpl = os.path.join(VERIF, "units", unit, "unit.rs.tpl")
     u = Unit(unit, vacuity=vacuity)
     u.demote = dict(demote or {})
     u.process(tpl)
     pulled = u.pull(pulls) if pulls else []
+    inline_pulled(u, pulled)
     # functions under contract that call a pulled (contract-less) function: what they learn about its result is nothing, so a
     # failing obligation in them is "needs a contract", not a violation (verdict.py reports it as undecided)
     pnames = {fn for (_, fn) in pulled}
